@@ -587,7 +587,11 @@ func checkC13(c *Ctx) {
 				if len(lf.Path) == 1 && c.R.Chance(1, 8) {
 					m[lf.Path[0]] = map[string]interface{}{"k": 1, "n": map[string]interface{}{"z": 2.5}}
 				}
-				if lf.T == NCmp && strings.HasSuffix(lf.Lit.Kind, "list") && len(lf.Path) == 1 && c.R.Chance(1, 4) {
+				if lf.T == NCmp && lf.Lit.Kind == "str" && len(lf.Path) == 1 && len(lf.Lit.Text) > 2 && c.R.Chance(1, 6) {
+					// a JSON-style list of texts where a string is compared (next to a typed []string elsewhere in the object)
+					m[lf.Path[0]] = []interface{}{strings.Trim(lf.Lit.Text, "\""), "green"}
+					c.count("short_interface_slice_at_a_string_comparison")
+				} else if lf.T == NCmp && strings.HasSuffix(lf.Lit.Kind, "list") && len(lf.Path) == 1 && c.R.Chance(1, 4) {
 					// a short []interface{} attribute (what a JSON decoder gives) at a list comparison: next to a typed slice at
 					// another list comparison of the same rule this is what a shared scratch buffer would be filled from
 					l := []interface{}{}
